@@ -244,6 +244,7 @@ func (a *decimal) set(data []byte) (ok bool) {
 	// digits
 	sawdot := false
 	sawdigits := false
+	dropped := 0 // integer digits that did not fit into a.d; they still move the decimal point
 	for ; i < len(data); i++ {
 		switch {
 		case data[i] == '.':
@@ -251,7 +252,7 @@ func (a *decimal) set(data []byte) (ok bool) {
 				return false
 			}
 			sawdot = true
-			a.dp = a.nd
+			a.dp = a.nd + dropped
 			continue
 
 		case data[i] >= '0' && data[i] <= '9':
@@ -263,8 +264,13 @@ func (a *decimal) set(data []byte) (ok bool) {
 			if a.nd < len(a.d) {
 				a.d[a.nd] = data[i]
 				a.nd++
-			} else if data[i] != '0' {
-				a.trunc = true
+			} else {
+				if data[i] != '0' {
+					a.trunc = true
+				}
+				if !sawdot {
+					dropped++
+				}
 			}
 			continue
 		}
@@ -274,7 +280,7 @@ func (a *decimal) set(data []byte) (ok bool) {
 		return false
 	}
 	if !sawdot {
-		a.dp = a.nd
+		a.dp = a.nd + dropped
 	}
 
 	// optional exponent moves decimal point.
